@@ -4,6 +4,7 @@ go 1.26.4
 
 require (
 	github.com/google/uuid v1.6.0
+	github.com/klauspost/reedsolomon v1.12.4
 	github.com/sharedcode/sop v0.0.0
 	github.com/sharedcode/sop/adapters/redis v0.0.0
 	github.com/sharedcode/sop/ai v0.0.0
@@ -23,7 +24,6 @@ require (
 	github.com/google/cel-go v0.25.0 // indirect
 	github.com/hailocab/go-hostpool v0.0.0-20160125115350-e80d13ce29ed // indirect
 	github.com/klauspost/cpuid/v2 v2.3.0 // indirect
-	github.com/klauspost/reedsolomon v1.12.4 // indirect
 	github.com/ncw/directio v1.0.5 // indirect
 	github.com/redis/go-redis/v9 v9.8.0 // indirect
 	github.com/sethvargo/go-retry v0.3.0 // indirect
